@@ -47,6 +47,7 @@ type Op struct {
 	XDel     []string          `json:"xdel,omitempty"`
 	XDelNil  bool              `json:"xdelnil,omitempty"` // pass nil (not empty) xattrsToDelete
 	XNames   []string          `json:"xnames,omitempty"`
+	XEcho    []string          `json:"xecho,omitempty"` // xattr names whose CURRENT value is written back unchanged (resolved at run time)
 	DelBody  bool              `json:"delbody,omitempty"`
 	Path     string            `json:"path,omitempty"`
 	Amt      uint64            `json:"amt,omitempty"`
@@ -96,6 +97,9 @@ func (o Op) String() string {
 	}
 	if len(o.XNames) > 0 {
 		fmt.Fprintf(&b, " names=%v", o.XNames)
+	}
+	if len(o.XEcho) > 0 {
+		fmt.Fprintf(&b, " echo=%v", o.XEcho)
 	}
 	if o.DelBody {
 		b.WriteString(" delbody")
